@@ -21,6 +21,10 @@ CHECKS = {
    technique="TLC trace validation against GqlExec under gated adversarial schedules (LIFO/FIFO/random completion orders) on -race builds of generated servers",
    text="The same operations and plans are executed under several resolver completion orders enforced by gates (reversed, FIFO, seeded random) on race-detector builds of servers generated from /repo; TLC validates each execution against GqlExec (response equals the schedule-free reference Ref, hence all schedules agree; for mutations the action guard SerialOK demands that root field i+1 starts only after root field i's whole subtree ended). A race-detector report is a violation.",
    note="Trusted: TLC, Go race detector, the in-probe scheduler's quiescence window (affects only which orders are explored)."),
+ "C13": dict(level=MC, ref="DESIGN.md §5 C13",
+   technique="TLA+ payload-merge specification (GqlDefer over GqlRef) + TLC trace validation of payload sequences of generated servers under gated group completion orders",
+   text="Random and hand-written operations with @defer (nested, in lists, if true/false/variable, shared labels) x fault plans x group completion orders are executed on servers generated from /repo; TLC validates each payload sequence against GqlDefer: merged payloads equal the reference result of the undeferred operation (outside the subtree a confined failure nulls), each (path,label) group at most once, every payload deliverable at arrival, hasNext true on all but the last, no error the plain execution lacks. Two known deviations of the pinned tree are admitted by a named constant in a second configuration so that the rest of such traces is still checked.",
+   note="Trusted: TLC, universal resolver, the Go-side classifier only NAMES a rejected trace's finding class (verdict is TLC's)."),
 }
 NOT_YET = {}
 def main():
